@@ -139,13 +139,15 @@ def _make_nodes(P, gid, nm: _Namer, variant: int, in_function: bool):
         ins = [nm.ref(r) for r in n["ins"]]
         while ins and ins[-1] == "":
             ins.pop()
-        outs = [nm.out(gid, i, o) for o in range(1, n["nout"] + 1)]
+        omitted = {int(v) for k, v in n["attr"] if k == "__omit"}      # outputs the call leaves unnamed
+        outs = ["" if o in omitted else nm.out(gid, i, o) for o in range(1, n["nout"] + 1)]
         kw = _attrs(n, variant + i)
         domain, opname = _split_op(n["op"])
         if n["fn"]:
             domain = LOCAL
             for name, val in n["attr"]:
-                kw[name] = float(val)
+                if name != "__omit":
+                    kw[name] = float(val)
         if n["op"] == "If":
             kw["then_branch"] = _make_graph(P, n["subs"][0], nm, variant)
             kw["else_branch"] = _make_graph(P, n["subs"][1], nm, variant)
@@ -365,6 +367,8 @@ class Abstractor:
                 subs = [self.gid[id(n.attributes["then_branch"].value)], self.gid[id(n.attributes["else_branch"].value)]]
             if n.op_type == "Constant" and n.domain == "":
                 pairs = [["const", _const_token(n)]]
+            if fn:
+                pairs = [["__omit", str(o)] for o, v in enumerate(n.outputs, start=1) if not v.name] + pairs
             ins = [self._ref(v) for v in n.inputs]
             while ins and ins[-1][0] == "none":
                 ins.pop()
